@@ -46,6 +46,19 @@ CHECKS.update({
             "DESIGN.md §4 C18"),
 })
 
+CHECKS.update({
+    "C10": ("model_checking", "E1",
+            "preemption- and deviation-bounded exhaustive schedule exploration (controlled scheduler, rate-limiter answers as environment choices) of publishers writing real MQTT packets into the real listener.Conn / websocket transport while the periodic flush runs",
+            "Four scenarios (plain buffered connection with two publishers x two packets and two timer flushes; websocket transport; websocket over the buffered connection; the shared encode-buffer pool with yields inside the encoder) are explored exhaustively up to 2 (quick) / 3 (thorough) deviations; the byte stream that reached the socket is parsed by an independent MQTT decoder and must consist of complete packets, each sent message once, per-publisher order kept, nothing left queued after the timer flush.",
+            "socket Write calls are atomic; sequentially consistent statement-level interleavings; real sockets/TLS/OS scheduling not modelled.",
+            "DESIGN.md §4 C10"),
+    "C11": ("exploration", "E3",
+            "bounded-exhaustive enumeration of key-generation and link-extension requests through a real broker connection, decrypted results and behavioural grants compared with a reference",
+            "Every (parent kind incl. all 64 extendable masks, crafted expired/foreign/garbage parents) x 142 type strings x 3 ttls x 9 channels request goes through the real emitter/keygen/ handler; the decrypted key is checked clause by clause (no master bit, permissions within request and parent, contract/signature/master copied, expiry) and its grants through the real Authorize are compared in both directions with a string-level reference over 125 probe channels; extendable keys are tried for publish, subscribe, unsubscribe, presence and link auto-subscribe.",
+            "one license version (v3); wildcard requests against keys are C03's business.",
+            "DESIGN.md §4 C11"),
+})
+
 NOT_YET = {}
 
 
